@@ -9,14 +9,24 @@ Model: `Canopy.Proto` (protobuf wire model + `Transaction` schema, `Model/Proto.
 `Model/Replay.lean`). Identity of a transaction is `txId raw = SHA-256(raw)` — the hash of the RAW
 bytes — while the signature covers `signBytes (decode raw) = canon (decode raw without signature)`.
 
-Result, in one paragraph. The replay clause at full strength (`NoReplay`) is **false of the code as
-it stands**: `no_replay_false` (five concrete witnesses, `Props/C06W.lean`, replayed on the real
-state machine by the Go driver). It holds for byte strings that are the canonical marshalling of
-their content with canonically encoded keys (`no_replay_partial`), and therefore for the repaired
-admission path that enforces exactly that (`no_replay_repaired`; `strictTx`/`strictKey` in the model,
-tied to the source by `Gen.Proto.canonicalTxEnforced`/`canonicalKeyEnforced`). The cross-chain,
-window and nonce-floor clauses hold of the code as it stands (`cross_chain`, `window`,
+Result, in one paragraph. The replay clause at full strength (`NoReplay`) was **false of the code
+before the repairs** 058e982 / dd98b36 (`strictTx = strictKey = false`): `no_replay_false`, and
+still false with the first repair alone: `no_replay_false_without_key_check` (concrete witnesses in
+`Props/C06W.lean`, built from real signed transactions; the Go driver re-offers them, and the whole
+re-encoding family, to the real state machine on every run). It holds for byte strings that are the
+canonical marshalling of their content with canonically encoded keys (`no_replay_partial`), hence
+for the admission path that enforces exactly that: `no_replay_repaired` is the live obligation, and
+`admission_enforces_canonical_encodings` pins — from the regenerated source facts — that the code
+is that path. The cross-chain, window and nonce-floor clauses hold as well (`cross_chain`, `window`,
 `nonce_floor`, `nonce_floor_rises`).
+
+Scope of `no_replay_repaired`: single-key, non-RLP transactions, under `SigUnique`. RLP.V2 is covered
+by the nonce floor, legacy RLP by the Ethereum-hash alias of the indexer (modelled and run against
+the code; the conversion itself is uninterpreted). A multi-signature account is, in the model,
+several keys with one address (`Scheme.multi`), which `SigUnique` excludes: co-signers who hold the
+members' individual signatures can assemble other (key order, signer subset) pairs for the same
+signed content and these execute again on the real code (measured: evidence `multisig_*`); someone
+holding only on-chain data cannot (six constructions refused).
 
 Cryptography is symbolic (`Replay.Env`, `SigUnique`): no theorem says anything about Ed25519, BLS or
 ECDSA; which malleated signatures / key encodings the real verifiers accept is measured by the
@@ -174,8 +184,13 @@ theorem no_replay_repaired (e : Env) (c : Chain) (hu : SigUnique e) (h1 : c.stri
     rw [heq] at f₂
     exact absurd f₂.replay (checkReplay_dup e c raw₁ t₂ g₂ hh hidx)
 
-/-- which of the two the code is, according to its current source -/
-def codeIsRepaired : Bool := Gen.Proto.canonicalTxEnforced && Gen.Proto.canonicalKeyEnforced
+/-- **the code is the repaired admission path**: `CheckTx` compares the submitted bytes with
+`lib.Marshal` of their decoded form, `CheckSignature` compares the submitted key bytes with
+`PublicKeyI.Bytes()` of the parsed key (facts regenerated from `fsm/transaction.go`; removing either
+comparison breaks this theorem, and the drivers then run the model of the unrepaired path, whose
+re-encoding family the Go oracle replays) -/
+theorem admission_enforces_canonical_encodings :
+    Gen.Proto.canonicalTxEnforced = true ∧ Gen.Proto.canonicalKeyEnforced = true := by decide
 
 /-! ## cross-chain, window, nonce floor (hold of the code as it stands) -/
 
